@@ -244,6 +244,17 @@ theorem while_true {C : Ctx} {c : Expr} {body : Block} {cfg c1 c2 : Cfg} {o : Ou
     simp only [↓reduceIte]
     rw [bind_ok hk']
     rfl
+  | retBare =>
+    have hr' : r = .ok (.retBare, c2) := hr
+    subst hr'
+    have hm' := Runs.lift (monoF_eval c) hm (Nat.le_max_left m k)
+    have hk' := Runs.lift (monoF_block body) hk (Nat.le_max_right m k)
+    refine ⟨max m k, ?_⟩
+    simp only [execStep]
+    rw [bind_ok hm', bind_ok (asBool_run true c1)]
+    simp only [↓reduceIte]
+    rw [bind_ok hk']
+    rfl
 
 theorem asBool_ok_inv {v : Val} {c c' : Cfg} {t : Bool} (h : asBool v c = some (.ok (t, c'))) :
     v = .bool t ∧ c' = c := by
@@ -292,6 +303,10 @@ theorem while_inv {C : Ctx} {c : Expr} {body : Block} {cfg c' : Cfg} {o' : Out}
       obtain ⟨rfl, rfl⟩ := this; rfl
     | stop =>
       have : M.ret' Out.stop c2 = some (.ok (o', c')) := hn4
+      simp [M.ret'] at this
+      obtain ⟨rfl, rfl⟩ := this; rfl
+    | retBare =>
+      have : M.ret' Out.retBare c2 = some (.ok (o', c')) := hn4
       simp [M.ret'] at this
       obtain ⟨rfl, rfl⟩ := this; rfl
 
@@ -356,25 +371,40 @@ theorem items_cons {C : Ctx} {v : String} {body : Block} {i : Inst} {rest : List
     simp only [forItems]
     rw [bind_ok (install_run v (.inst i) cfg), bind_ok hk]
     rfl
+  | retBare =>
+    have hr' : r = .ok (.retBare, c2) := hr
+    subst hr'
+    refine ⟨k, ?_⟩
+    simp only [forItems]
+    rw [bind_ok (install_run v (.inst i) cfg), bind_ok hk]
+    rfl
 
-theorem lookupVar_env {C : Ctx} {x : String} {c : Cfg} {v : Val} (h : envLookup c.fr.env x = some v) :
-    lookupVar C x c = some (.ok (v, c)) := by
+theorem lookupVar_env {C : Ctx} {x : String} {c : Cfg} {v : Val} (hself : selfHit c.fr x = false)
+    (h : envLookup c.fr.env x = some v) : lookupVar C x c = some (.ok (v, c)) := by
   unfold lookupVar
-  rw [bind_ok (show getFr c = some (.ok (c.fr, c)) from rfl)]
-  simp only [h]
+  rw [bind_ok (show getFr c = some (.ok (c.fr, c)) from rfl), hself]
+  simp only [Bool.false_eq_true, if_false, h]
+  rfl
+
+/-- in an operation or a derived attribute the NAME self (any letter case) denotes the receiving instance -/
+theorem lookupVar_self {C : Ctx} {x : String} {c : Cfg} (hself : selfHit c.fr x = true) :
+    lookupVar C x c = some (.ok (c.fr.self, c)) := by
+  unfold lookupVar
+  rw [bind_ok (show getFr c = some (.ok (c.fr, c)) from rfl), hself]
   rfl
 
 /-- `for each v in s`: the set variable is read ONCE; the loop runs over that list -/
 theorem foreach_is_items {C : Ctx} {v setv : String} {body : Block} {items : List Inst} {cfg : Cfg}
-    {r : Except Err (Out × Cfg)} (hs : envLookup cfg.fr.env setv = some (.set items)) :
+    {r : Except Err (Out × Cfg)} (hself : selfHit cfg.fr setv = false)
+    (hs : envLookup cfg.fr.env setv = some (.set items)) :
     Execs C (.forEach v setv body) cfg r ↔ ItemsExecs C v body items cfg r := by
   rw [execs_iff_step]
   constructor <;> rintro ⟨n, hn⟩ <;> refine ⟨n, ?_⟩
   · simp only [execStep] at hn
-    rw [bind_ok (lookupVar_env hs)] at hn
+    rw [bind_ok (lookupVar_env hself hs)] at hn
     exact hn
   · simp only [execStep]
-    rw [bind_ok (lookupVar_env hs)]
+    rw [bind_ok (lookupVar_env hself hs)]
     exact hn
 
 /-! ### statement lists and blocks: abrupt completion -/
@@ -434,7 +464,7 @@ theorem block_iff {C : Ctx} {b : Block} {cfg c' : Cfg} {o : Out} :
 theorem exec_break {C : Ctx} {cfg : Cfg} : Execs C .brk cfg (.ok (.brk, cfg)) := ⟨1, rfl⟩
 theorem exec_continue {C : Ctx} {cfg : Cfg} : Execs C .cont cfg (.ok (.cont, cfg)) := ⟨1, rfl⟩
 theorem exec_stop {C : Ctx} {cfg : Cfg} : Execs C .stop cfg (.ok (.stop, cfg)) := ⟨1, rfl⟩
-theorem exec_return_bare {C : Ctx} {cfg : Cfg} : Execs C (.ret none) cfg (.ok (.ret, cfg)) := ⟨1, rfl⟩
+theorem exec_return_bare {C : Ctx} {cfg : Cfg} : Execs C (.ret none) cfg (.ok (.retBare, cfg)) := ⟨1, rfl⟩
 
 theorem exec_return_value {C : Ctx} {e : Expr} {cfg c1 : Cfg} {v : Val}
     (he : Evals C e cfg (.ok (v, c1))) :
